@@ -448,4 +448,79 @@ theorem C09_attribute_conversions :
         ("swift-compiler", "alwaysOutOfDate", .bool false) ] := by
   refine ⟨by decide, by decide, by decide⟩
 
+/-! ## Outputs that no longer match what the command produced (`ExternalCommand::isResultValid`, generated chain) -/
+
+abbrev validChain := Generated.BSAttrs.resultValid
+
+/-- one iteration of the generated loop: go on with the next output iff this one still matches, otherwise `return false` -/
+theorem iteration_generated (o : OutputState) :
+    runIteration o validChain.perOutput = if o.matches then none else some false := by
+  obtain ⟨v, m, r, c⟩ := o
+  cases v <;> cases m <;>
+    simp only [validChain, Generated.BSAttrs.resultValid, runIteration, OutputStep.run, OutputState.matches, Bool.false_or,
+      Bool.true_or, if_true, if_false, Bool.false_eq_true]
+  · by_cases h : r = c <;> simp [h]
+  · by_cases h : r.isNone = c.isNone <;> simp [h]
+
+theorem runOutputs_generated (outs : List OutputState) :
+    runOutputs validChain outs = true ↔ ∀ o ∈ outs, o.matches = true := by
+  induction outs with
+  | nil => simp [runOutputs, validChain, Generated.BSAttrs.resultValid]
+  | cons o os ih =>
+    unfold runOutputs
+    rw [iteration_generated]
+    by_cases h : o.matches = true
+    · simp [h, ih]
+    · simp [h]
+
+/-- **C09_result_valid_iff** — the stored result of a command of the shell / phony / clang / archive / shared-library /
+swift-compiler tool is still valid on a scan IF AND ONLY IF the command is not `always-out-of-date`, the stored value is a
+successful command result, and EVERY declared output still matches what the command produced (`OutputState.matches`: a
+virtual output always; an `is-mutated` one if it still exists / is still missing; any other if its file information is the
+recorded one) — whatever the number and the order of the outputs. -/
+theorem C09_result_valid_iff (alwaysOutOfDate successful : Bool) (outs : List OutputState) :
+    resultValidOf validChain alwaysOutOfDate successful outs = true ↔
+      alwaysOutOfDate = false ∧ successful = true ∧ ∀ o ∈ outs, o.matches = true := by
+  unfold resultValidOf
+  cases alwaysOutOfDate <;> cases successful <;>
+    simp [validChain, Generated.BSAttrs.resultValid, List.any] <;>
+    exact runOutputs_generated outs
+
+/-- **C09_output_change_invalidates** — "a command is re-executed when … one of its outputs no longer matches what it
+produced": for every output list and every position in it, a non-virtual, non-mutated output whose file information
+differs from the recorded one makes the stored result INVALID — regardless of what is declared before it (mutated
+outputs included) or after it; and so does a mutated output that disappeared or appeared.  (With the `continue` of the
+`is-mutated` branch turned into a `return` the generated chain carries `.mutatedExistence false` and this is refuted.) -/
+theorem C09_output_change_invalidates (pre post : List OutputState) (o : OutputState) (hv : o.isVirtual = false)
+    (h : (o.isMutated = false ∧ o.recorded ≠ o.current) ∨ (o.isMutated = true ∧ o.recorded.isNone ≠ o.current.isNone))
+    (alwaysOutOfDate successful : Bool) :
+    resultValidOf validChain alwaysOutOfDate successful (pre ++ o :: post) = false := by
+  cases hr : resultValidOf validChain alwaysOutOfDate successful (pre ++ o :: post) with
+  | false => rfl
+  | true =>
+    have hm := ((C09_result_valid_iff _ _ _).1 hr).2.2 o (by simp)
+    obtain ⟨v, m, r, c⟩ := o
+    simp only at hv
+    subst hv
+    rcases h with ⟨h1, h2⟩ | ⟨h1, h2⟩ <;> simp only at h1 <;> subst h1 <;>
+      simp [OutputState.matches] at hm <;> simp_all
+
+/-- a mutated output modified in place, and unchanged outputs, keep the result valid: null builds run nothing -/
+theorem C09_matching_outputs_keep_result (outs : List OutputState) (h : ∀ o ∈ outs, o.matches = true) :
+    resultValidOf validChain false true outs = true :=
+  (C09_result_valid_iff false true outs).2 ⟨rfl, rfl, h⟩
+
+/-- which tools run this rule, and which have a rule of their own (mkdir: directory existence; symlink: `lstat` of the link;
+stale-file-removal: never valid) — their classes override `isResultValid` or do not derive from ExternalCommand -/
+theorem C09_result_valid_tools :
+    Generated.BSAttrs.resultValidTools = ["shell", "phony", "clang", "archive", "shared-library", "swift-compiler"] ∧
+    Generated.BSAttrs.ownValidityRuleTools = ["mkdir", "symlink", "stale-file-removal"] := by decide
+
+-- the seeded shape: outputs [app (mutated, unchanged), app.map (deleted)] — invalid with the generated chain, and the
+-- early-return spelling of the `is-mutated` branch would call it valid
+example : resultValidOf validChain false true [⟨false, true, some 1, some 2⟩, ⟨false, false, some 3, none⟩] = false := by decide
+example : resultValidOf { validChain with perOutput := [.skipVirtual, .mutatedExistence false, .compareInfo] } false true
+    [⟨false, true, some 1, some 2⟩, ⟨false, false, some 3, none⟩] = true := by decide
+example : resultValidOf validChain false true [⟨false, true, some 1, some 2⟩, ⟨true, false, none, none⟩, ⟨false, false, some 3, some 3⟩] = true := by decide
+
 end LLBuild.BSAttrs
